@@ -190,6 +190,27 @@ fn base_complete(r: &mut Rng) -> (Vec<Line>, Entry) {
             lines[i].text = delimiter_cluster(r, &lines[i].text);
         }
     }
+    if r.chance(1, 8) {
+        // a single-valued variable set, other single-valued variables set to
+        // the empty string, the first one set again to something shorter - at
+        // the end of the text (values kept as ranges into one buffer, or an
+        // arena that is cut back when a value is replaced, go wrong only in
+        // such a sequence)
+        let svars: Vec<usize> = (0..crate::oracle::summary::NVARS).filter(|&v| VARS[v].kind == crate::oracle::summary::Kind::S).collect();
+        let x = *r.pick(&svars);
+        lines.push(Line { var: x, text: format!("a rather long value number {}", r.below(1000)) });
+        for _ in 0..r.range(1, 3) {
+            let y = *r.pick(&svars);
+            if y != x {
+                lines.push(Line { var: y, text: String::new() });
+            }
+        }
+        lines.push(Line { var: x, text: ["s", "", "short"][r.below(3)].to_string() });
+        if r.chance(1, 2) {
+            let z = *r.pick(&svars);
+            lines.push(Line { var: z, text: "z".to_string() });
+        }
+    }
     let want = os::fold(&lines).expect("harness bug: generated integer line is not an integer");
     assert!(want.is_complete(), "harness bug: complete text is not complete");
     (lines, want)
